@@ -8,15 +8,21 @@ Python anchors
                                  (attribute redirection to the origin, `copyreg` reducer)
 * forml/flow/_code/target/user.py `Preset.reduce`, `SetState.set`, `Train.__call__`, `Functor.execute`
 
-An actor object is `(params, state)`: the hyper-parameter dict and the one non-parameter attribute
-the toy actors have (`None` = untrained).  The three flavours -- native class, function-decorated
-(`wrap.Actor.apply`, `wrap.Actor.train/.apply`), class-wrapped (`wrap.Actor.type`) -- are instances
-of one interface `Flavour`.  The user's functions are parameters (`User`): they receive the
-*effective lookup* of the hyper-parameters (`pget params`), so behaviour depends on a dict only
-through its key→value content (dict order is not observable).
+An actor object is `(params, state, ctor)`: the dict of attributes that came in through the
+constructor (the hyper-parameters the actor reports through `get_params` *and* the constructor
+arguments it keeps to itself -- `Sig.hidden`; the Actor API allows `get_params/set_params` to cover
+only a subset of the constructor arguments), the one further attribute the toy actors have (`None` =
+untrained) and, for the class-wrapped flavour, the constructor arguments remembered for unpickling.
+The flavours -- native class (default `get_state/set_state`), native class with its own naive
+`get_state/set_state`, function-decorated (`wrap.Actor.apply`, `wrap.Actor.train/.apply`),
+class-wrapped (`wrap.Actor.type`) -- are instances of one interface `Flavour`.  The user's functions
+are parameters (`User`): they receive the *effective lookup* of the attributes (`pget params`), so
+behaviour depends on a dict only through its key→value content (dict order is not observable).
 
-The wrapped flavour follows the code **with the two proposed repairs applied**
-(fixes/C13-type-empty-mapping.diff, fixes/C13-stateful-noncallable.diff).
+The wrapped flavour follows the code **with the repairs applied**: fixes/C13-type-empty-mapping.diff
+(c5871cf), fixes/C13-stateful-noncallable.diff (146ab51), fixes/C13-wrapped-pickle-ctor-args.diff.
+The unrepaired variants are kept as `TrainMap.statefulLegacy` / `wrappedRepickleLegacy` for the
+refutation theorems.
 Core Lean only.
 -/
 namespace ForML.Actor
@@ -44,6 +50,9 @@ def pupdate (m : PMap) : PMap → PMap
 
 def pkeys (m : PMap) : List Key := m.map (·.1)
 
+/-- `{k: v for k, v in d.items() if p(k)}` -/
+def pfilter (p : Key → Bool) (m : PMap) : PMap := m.filter (fun kv => p kv.1)
+
 /-- `a if a is not None else b` on lookups -/
 def por : Option Int → Option Int → Option Int
   | some v, _ => some v
@@ -60,7 +69,8 @@ inductive Err where
 decorated function; only `bind_partial` of `Spec.__new__` ever sees them);
 `pos`: positional-or-keyword hyper-parameters in order; `kw`: keyword-only ones; `varkw`: `**params`;
 `mandatory`: names without a default; `defaults`: what a constructor that stores *all* its
-arguments stores for the omitted ones. -/
+arguments stores for the omitted ones; `hidden`: constructor arguments of a class that its
+`get_params` does not report and its `set_params` does not accept (not hyper-parameters). -/
 structure Sig where
   anon : Nat := 0
   pos : List Key := []
@@ -68,13 +78,21 @@ structure Sig where
   varkw : Bool := false
   mandatory : List Key := []
   defaults : PMap := []
+  hidden : List Key := []
   deriving Repr, DecidableEq
 
 def Sig.names (s : Sig) : List Key := s.pos ++ s.kw
 
+/-- the name is a hyper-parameter (reported by `get_params`, accepted by `set_params`) -/
+def Sig.visible (s : Sig) (k : Key) : Bool := !s.hidden.contains k
+
 /-- every key of `m` is an accepted keyword -/
 def accepts (s : Sig) (m : PMap) : Bool :=
   s.varkw || m.all (fun kv => s.names.contains kv.1)
+
+/-- every key of `m` is accepted by the class' `set_params` -/
+def settable (s : Sig) (m : PMap) : Bool :=
+  accepts s m && m.all (fun kv => s.visible kv.1)
 
 def zipPos : List Key → List Int → PMap
   | k :: ks, v :: vs => (k, v) :: zipPos ks vs
@@ -102,8 +120,11 @@ def Sig.wf (s : Sig) : Bool := s.defaults.all (fun kv => s.names.contains kv.1)
 /-! ### actor objects, state blobs, user functions -/
 
 structure Obj (σ : Type) where
+  /-- attributes that came in through the constructor / `set_params` -/
   params : PMap
   state : Option σ
+  /-- `Class.Actor._init`: the constructor arguments a class-wrapped actor remembers (repaired code) -/
+  ctor : List Int × PMap := ([], [])
 
 /-- what `cloudpickle.loads(state)` yields: the whole `__dict__` (native / wrapped: parameters and
 internals) or the bare user state (decorated) -/
@@ -150,9 +171,12 @@ def ctorStore (sig : Sig) (args : List Int) (kwargs : PMap) : Except Err (Obj σ
   | .error e => .error e
   | .ok b => .ok { params := pupdate sig.defaults b, state := none }
 
+/-- toy `get_params()`: the hyper-parameter attributes -/
+def reported (sig : Sig) (o : Obj σ) : PMap := pfilter sig.visible o.params
+
 /-- toy `set_params(**kw)`: unknown names are a `TypeError`, otherwise the values are stored -/
 def storeParams (sig : Sig) (o : Obj σ) (kw : PMap) : Except Err (Obj σ) :=
-  if accepts sig kw then .ok { o with params := pupdate o.params kw } else .error .typeError
+  if settable sig kw then .ok { o with params := pupdate o.params kw } else .error .typeError
 
 /-- toy `apply` of a class with (`stateful`) / without a training method -/
 def classApply (u : User σ) (stateful : Bool) (o : Obj σ) (x : Int) : Except Err Int :=
@@ -173,7 +197,7 @@ def dictSetState (sig : Sig) (stateful : Bool) (o : Obj σ) : Blob σ → Except
   | some pl =>
     if !stateful then .error .unexpectedError
     else match pl with
-      | .whole p s => storeParams sig { params := p, state := s } o.params
+      | .whole p s => storeParams sig { o with params := p, state := s } (reported sig o)
       | .value _ => .error .typeError       -- `dict.update(<non mapping>)`
 
 def native (u : User σ) (sig : Sig) (hasTrain : Bool) : Flavour σ where
@@ -185,11 +209,34 @@ def native (u : User σ) (sig : Sig) (hasTrain : Bool) : Flavour σ where
     else .error .runtimeError               -- `flow.Actor.train`: 'Stateless actor'
   getState := dictGetState hasTrain
   setState := dictSetState sig hasTrain
-  getParams := fun o => o.params
+  getParams := reported sig
   setParams := storeParams sig
   isStateful := hasTrain                    -- `cls.train.__code__ is not Actor.train.__code__`
   hasTrain := hasTrain
   repickle := fun o => .ok o                -- default `__reduce_ex__`: class by reference/value + `__dict__`
+
+/-! ### native flavour with user-written state methods
+
+A `flow.Actor` subclass with a training method that overrides `get_state`/`set_state` the naive
+way: `get_state = dumps(self.__dict__)`; `set_state(s)`: `if s: self.__dict__.update(loads(s))` --
+no hyper-parameter is preserved by the actor itself, only the platform's `SetState.set` does it. -/
+
+def nativeCustom (u : User σ) (sig : Sig) : Flavour σ where
+  specSig := sig
+  build := ctorStore sig
+  apply := classApply u true
+  train := fun o x y => .ok { o with state := some (u.trainFn (pget o.params) o.state x y) }
+  getState := fun o => some (.whole o.params o.state)
+  setState := fun o b =>
+    match b with
+    | none => .ok o
+    | some (.whole p s) => .ok { o with params := p, state := s }
+    | some (.value _) => .error .typeError
+  getParams := reported sig
+  setParams := storeParams sig
+  isStateful := true
+  hasTrain := true
+  repickle := fun o => .ok o
 
 /-! ### decorated flavour: `wrap.Actor.apply` (`pair = false`), `wrap.Actor.train/.apply` (`pair = true`) -/
 
@@ -254,9 +301,34 @@ def TrainMap.statefulLegacy : TrainMap → Bool
   | .absent => false
   | _ => true
 
+/-- `Class.Actor.__init__`: `self._origin = Origin(*args, **kwargs); self._init = args, kwargs` -/
+def wrappedBuild (sig : Sig) (args : List Int) (kwargs : PMap) : Except Err (Obj σ) :=
+  match ctorStore sig args kwargs with
+  | .error e => .error e
+  | .ok o => .ok { o with ctor := (args, kwargs) }
+
+/-- the copyreg reducer: `(partial(actor, *a._init[0], **a._init[1]), (), (a.get_state(), a.get_params()), …,
+lambda o, s: (o.set_state(s[0]), o.set_params(**s[1])))` -/
+def wrappedRepickle (sig : Sig) (stateful : Bool) (o : Obj σ) : Except Err (Obj σ) :=
+  match wrappedBuild sig o.ctor.1 o.ctor.2 with
+  | .error e => .error e
+  | .ok (o0 : Obj σ) =>
+    match dictSetState sig stateful o0 (dictGetState stateful o) with
+    | .error e => .error e
+    | .ok o1 => storeParams sig o1 (reported sig o)
+
+/-- the reducer of the unrepaired code: `(actor, (), …)` -- the origin is re-created without arguments -/
+def wrappedRepickleLegacy (sig : Sig) (stateful : Bool) (o : Obj σ) : Except Err (Obj σ) :=
+  match wrappedBuild sig [] [] with
+  | .error e => .error e
+  | .ok (o0 : Obj σ) =>
+    match dictSetState sig stateful o0 (dictGetState stateful o) with
+    | .error e => .error e
+    | .ok o1 => storeParams sig o1 (reported sig o)
+
 def wrapped (u : User σ) (sig : Sig) (tm : TrainMap) : Flavour σ where
   specSig := sig                            -- `__wrapped__` = the origin class
-  build := ctorStore sig                    -- `self._origin = Origin(*args, **kwargs)`
+  build := wrappedBuild sig
   apply := classApply u tm.trains
   train := fun o x y =>
     match tm with
@@ -266,32 +338,27 @@ def wrapped (u : User σ) (sig : Sig) (tm : TrainMap) : Flavour σ where
   -- `flow.Actor.get_state/set_state` run with `self.__dict__` redirected to the origin's
   getState := dictGetState tm.stateful
   setState := dictSetState sig tm.stateful
-  getParams := fun o => o.params
+  getParams := reported sig
   setParams := storeParams sig
   isStateful := tm.stateful
   hasTrain := tm.trains
-  -- copyreg reducer: `(actor, (), (a.get_state(), a.get_params()), …, lambda o, s: (o.set_state(s[0]), o.set_params(**s[1])))`
-  repickle := fun o =>
-    match ctorStore sig [] [] with
-    | .error e => .error e
-    | .ok (o0 : Obj σ) =>
-      match dictSetState sig tm.stateful o0 (dictGetState tm.stateful o) with
-      | .error e => .error e
-      | .ok o1 => storeParams sig o1 o.params
+  repickle := wrappedRepickle sig tm.stateful
 
 /-! ### the flavours as data -/
 
 inductive FlavourSpec where
   | native (sig : Sig) (hasTrain : Bool)
+  | custom (sig : Sig)
   | decorated (sig : Sig) (pair : Bool)
   | wrapped (sig : Sig) (tm : TrainMap)
   deriving Repr, DecidableEq
 
 def FlavourSpec.sig : FlavourSpec → Sig
-  | .native s _ | .decorated s _ | .wrapped s _ => s
+  | .native s _ | .custom s | .decorated s _ | .wrapped s _ => s
 
 def FlavourSpec.toFlavour (u : User σ) : FlavourSpec → Flavour σ
   | .native s t => ForML.Actor.native u s t
+  | .custom s => ForML.Actor.nativeCustom u s
   | .decorated s p => ForML.Actor.decorated u s p
   | .wrapped s tm => ForML.Actor.wrapped u s tm
 
@@ -332,6 +399,32 @@ def trainAll (f : Flavour σ) (o : Obj σ) : List (Int × Int) → Except Err (O
     | .error e => .error e
     | .ok o' => trainAll f o' r
 
+/-- life of an actor between construction and state export: training steps and `set_params` calls -/
+inductive Op where
+  | train (x y : Int)
+  | setParams (kw : PMap)
+  deriving Repr
+
+def runOp (f : Flavour σ) (o : Obj σ) : Op → Except Err (Obj σ)
+  | .train x y => f.train o x y
+  | .setParams kw => f.setParams o kw
+
+def runOps (f : Flavour σ) (o : Obj σ) : List Op → Except Err (Obj σ)
+  | [] => .ok o
+  | op :: r =>
+    match runOp f o op with
+    | .error e => .error e
+    | .ok o' => runOps f o' r
+
+/-- the builder follows the same hyper-parameter updates (`Builder.update(**kw)` per `set_params(**kw)`) -/
+def Spec.follow (f : Flavour σ) (sp : Spec) : List Op → Except Err Spec
+  | [] => .ok sp
+  | .train _ _ :: r => sp.follow f r
+  | .setParams kw :: r =>
+    match sp.update f [] kw with
+    | .error e => .error e
+    | .ok sp' => sp'.follow f r
+
 /-! ### the platform path (`target/user.py`) -/
 
 /-- `Preset.reduce` + `SetState.set`: a falsy value is skipped, otherwise
@@ -342,6 +435,10 @@ def presetState (f : Flavour σ) (o : Obj σ) : Blob σ → Except Err (Obj σ)
     match f.setState o (some pl) with
     | .error e => .error e
     | .ok o' => f.setParams o' (f.getParams o)
+
+/-- how a state reaches an actor: `actor.set_state(b)` directly, or through the platform's preset -/
+def giveState (preset : Bool) (f : Flavour σ) (o : Obj σ) (b : Blob σ) : Except Err (Obj σ) :=
+  if preset then presetState f o b else f.setState o b
 
 /-- `Functor(builder, SetState(Apply())).execute(state, x)` -/
 def functorApply (f : Flavour σ) (sp : Spec) (b : Blob σ) (x : Int) : Except Err Int :=
